@@ -161,3 +161,9 @@ Fixpoint to_bits (t : tt) (acc : list bool) : list bool :=
   | Leaf b => b :: acc
   | Node lo hi => to_bits lo (to_bits hi acc)
   end.
+
+(** update / flip of a valuation at one tag (used by specifications and proofs) *)
+Definition upd (v : val) (g : tag) (b : bool) : val :=
+  fun h => if tag_eqb h g then b else v h.
+Definition vflip (g : tag) (v : val) : val :=
+  fun h => if tag_eqb h g then negb (v h) else v h.
